@@ -1152,6 +1152,12 @@ func TestVerifC17Hostile(t *testing.T) {
 				dead = true
 			}
 		}
+		if dead { // the stream stopped being served: give a loaded machine time to report why
+			select {
+			case <-rc.errCh:
+			case <-time.After(20 * time.Second):
+			}
+		}
 		time.Sleep(300 * time.Microsecond)
 		j, errored, nAtErr, errVal := rc.snapshot()
 		rc.close()
